@@ -372,7 +372,8 @@ struct WP
     }
     bool all_ok () const { for (int k = 0; k < 6; ++k) if (!ok (k)) return false; return true; }
     LD dist (int k, V3 q) const { return dot (n[k], q) - off[k]; }
-    LD err (int k, V3 q, LD extra) const { return eps * (norm (q) + extra + norm (P1[k]) + kappa[k] * norm (q - P1[k])); }
+    LD E1[6];     // rounding-error magnitude (in units of eps) of the world-space anchor P1
+    LD err (int k, V3 q, LD extra) const { return eps * (norm (q) + extra + E1[k] + kappa[k] * norm (q - P1[k])); }
     // max over planes of dist/err: < 0 iff inside; |.| is the robustness of that verdict
     LD margin (V3 q, LD extra, int* which = nullptr) const
     {
@@ -387,14 +388,14 @@ struct WP
 };
 
 inline LD
-tri_kappa (V3 p1, V3 p2, V3 p3, LD* uv = nullptr, LD* cr = nullptr)
+tri_kappa (V3 p1, V3 p2, V3 p3, LD pm, LD* uv = nullptr, LD* cr = nullptr)
 {
+    // pm: bound (in units of eps) on the rounding error of the three points; an edge carries two of them
     V3 u = p2 - p1, v = p3 - p1;
     LD a = norm (cross (u, v));
     if (uv) *uv = norm (u) * norm (v);
     if (cr) *cr = a;
-    LD pm = std::max (norm (p1), std::max (norm (p2), norm (p3)));
-    return pm * (norm (u) + norm (v)) / a + norm (u) * norm (v) / a;
+    return 2 * pm * (norm (u) + norm (v)) / a + norm (u) * norm (v) / a;
 }
 
 // m == nullptr: planes(p) in camera space; else planes(p, M) in world space
@@ -424,17 +425,32 @@ world_planes (const FC<T>& c, const MC<T>* m, WP& w)
         if (m)
         {
             V3 p1 = m->map (tri[k][0]), p2 = m->map (tri[k][1]), p3 = m->map (tri[k][2]);
+            // a point p*M is a sum of three products and the translation: error <= eps * sum of |terms|
+            LD rn[3], tn = sqrtl (m->tau[0] * m->tau[0] + m->tau[1] * m->tau[1] + m->tau[2] * m->tau[2]), em = 0, e1 = 0;
+            for (int i = 0; i < 3; ++i) rn[i] = sqrtl (m->A[i][0] * m->A[i][0] + m->A[i][1] * m->A[i][1] + m->A[i][2] * m->A[i][2]);
+            for (int t = 0; t < 3; ++t)
+            {
+                LD e = fabsl (tri[k][t].x) * rn[0] + fabsl (tri[k][t].y) * rn[1] + fabsl (tri[k][t].z) * rn[2] + tn;
+                if (t == 0) e1 = e;
+                em = std::max (em, e);
+            }
             w.n[k]     = m->normal_w (nc[k]);
             w.P1[k]    = p1;
+            w.E1[k]    = e1;
             w.off[k]   = dot (w.n[k], p1);
-            w.kappa[k] = tri_kappa (p1, p2, p3, &w.uv[k], &w.cr[k]);
+            w.kappa[k] = tri_kappa (p1, p2, p3, em, &w.uv[k], &w.cr[k]);
         }
         else
         {
             w.n[k]   = nc[k];
             w.off[k] = oc[k];
-            if (!c.ortho && k < 4) { w.P1[k] = o; w.kappa[k] = tri_kappa (tri[k][0], tri[k][1], tri[k][2], &w.uv[k], &w.cr[k]); }
-            else { w.P1[k] = nc[k] * oc[k]; w.kappa[k] = 1; w.uv[k] = 1; w.cr[k] = 1; }
+            if (!c.ortho && k < 4)
+            {
+                LD pm = std::max (norm (tri[k][1]), norm (tri[k][2])) / 2; // exact inputs: only the products of the cross product round
+                w.P1[k] = o; w.E1[k] = 0;
+                w.kappa[k] = tri_kappa (tri[k][0], tri[k][1], tri[k][2], pm, &w.uv[k], &w.cr[k]);
+            }
+            else { w.P1[k] = nc[k] * oc[k]; w.E1[k] = fabsl (oc[k]); w.kappa[k] = 1; w.uv[k] = 1; w.cr[k] = 1; }
         }
     }
 }
